@@ -40,9 +40,14 @@ func runG07(raw json.RawMessage, w *Writer) {
 	var pl rtp.Payloader
 	var rx depack
 	nframes := len(c.Frames)
-	if c.Codec == "h264" {
+	switch c.Codec {
+	case "h264":
 		pl, rx = &codecs.H264Payloader{}, &codecs.H264Packet{}
-	} else {
+	case "vp8":
+		pl, rx = &codecs.VP8Payloader{}, &codecs.VP8Packet{}
+	case "opus":
+		pl, rx = &codecs.OpusPayloader{}, &codecs.OpusPacket{}
+	default:
 		pl, rx = &codecs.AV1Payloader{}, &codecs.AV1Depacketizer{}
 		nframes = len(c.Obus)
 	}
@@ -52,6 +57,10 @@ func runG07(raw json.RawMessage, w *Writer) {
 		if c.Codec == "h264" {
 			for _, u := range c.Frames[k] {
 				media = append(media, 0, 0, 0, 1)
+				media = append(media, bytesOf(u)...)
+			}
+		} else if c.Codec == "vp8" || c.Codec == "opus" {
+			for _, u := range c.Frames[k] {
 				media = append(media, bytesOf(u)...)
 			}
 		} else {
@@ -100,7 +109,7 @@ func runG07(raw json.RawMessage, w *Writer) {
 			}
 		})
 		e := Ev{"ev": "frame", "k": k, "codec": c.Codec, "mtu": c.Mtu, "res": r, "wire": wire, "rx_res": rxRes, "rx_out": ints(rxOut), "heads": heads, "tails": tails}
-		if c.Codec == "h264" {
+		if c.Codec != "av1" {
 			e["units"], e["obus"] = rawFrames[k], []int{}
 		} else {
 			e["units"], e["obus"] = []int{}, rawObus[k]
